@@ -807,7 +807,7 @@ def run(ctx):
             c = json.load(open(fpath))
             c['_corpus'] = os.path.basename(fpath)
             nets.append(c)
-        for _ in range(ctx.scale(100, 1500)):
+        for _ in range(ctx.scale(100, 1200)):
             nets.append({'topo': gen_case(rng), 'requests': None})
     # the vector stream evaluates terms of Run/C12.v, which is not a dependency of Props/C11.v: build it now
     ok_b, out_b = common.coq_build(['theories/Run/C12.vo'])
@@ -866,8 +866,8 @@ def run(ctx):
         # compute_path_dsjctn); pairs with include lists over all element kinds, judged by route_ok and the
         # proved-complete exists_disjoint_pair (machinery shared with the C12 check)
         from . import c12
-        c12.process(ctx, rng, [c12.gen_vector_case(rng) for _ in range(ctx.scale(30, 500))], 'C11', 'vec')
-        run_big(ctx, rng, ctx.scale(8, 80))
+        c12.process(ctx, rng, [c12.gen_vector_case(rng) for _ in range(ctx.scale(30, 300))], 'C11', 'vec')
+        run_big(ctx, rng, ctx.scale(8, 60))
     elif nets and nets[0].get('big'):
         run_big(ctx, rng, 1, fixed=nets)
     ctx.assumptions += [
